@@ -136,22 +136,32 @@ def stored_solution(net):
     return np.concatenate([net["_pit"]["node"][:, PINIT], net["_pit"]["branch"][:, MDOTINIT]]).copy()
 
 
+def failure_site(e):
+    """where inside pandapipes an exception was raised: 'newton_raphson' if the Newton loop was on the stack
+    (raised while iterating), else the innermost pandapipes function"""
+    import traceback
+    names = [f.name for f in traceback.extract_tb(e.__traceback__) if "pandapipes" in f.filename]
+    if "newton_raphson" in names:
+        return "newton_raphson"
+    return names[-1] if names else "?"
+
+
 def do_run(net, kwargs, sol_vec=None):
-    """-> (status, message).  mode heat takes the net's own stored solution unless one is supplied"""
+    """-> (status, message, site).  mode heat takes the net's own stored solution unless one is supplied"""
     import pandapipes as pp
     kw = dict(kwargs)
     try:
         if kw.get("mode") == "heat":
             if sol_vec is None:
                 if "_pit" not in net:
-                    return "NoStoredSolution", ""
+                    return "NoStoredSolution", "", ""
                 sol_vec = stored_solution(net)
             pp.pipeflow(net, sol_vec=sol_vec, **kw)
         else:
             pp.pipeflow(net, **kw)
-        return "ok", ""
+        return "ok", "", ""
     except Exception as e:  # noqa: BLE001
-        return type(e).__name__, str(e)[:200]
+        return type(e).__name__, str(e)[:200], failure_site(e)
 
 
 def val_in(v):
